@@ -171,7 +171,7 @@ LoadProc(pid, r, oldp) ==
              !.parent = IF "link" \in DOMAIN lp /\ lp.link.pid # NIL THEN lp.link ELSE @,
              !.inp = IF "link" \in DOMAIN lp /\ lp.link.pid # NIL THEN lp.inp ELSE @,
              !.dirty = ImageDiff(pid, r),
-             !.gone = FALSE, !.cached = TRUE,
+             !.gone = FALSE, !.cached = TRUE, !.env = lp.env,
              !.rowsLeft = [proc |-> r.post.rows[pid].proc.exists, tasks |-> Len(r.post.rows[pid].tasks),
                            open |-> Len(SelectSeq(r.post.rows[pid].tasks, LAMBDA x : ~IsDone(x.st)))],
              !.pure = @ /\ ~(r.a = "Act" /\ r.pid = pid /\ r.res = "ok" /\ r.kind # "complete")]
